@@ -226,6 +226,14 @@ pub fn nesting_inputs() -> Vec<String> {
     out
 }
 
+/// (prefix, unit, suffix): patterns made of one unit repeated many times
+pub fn growth_units() -> Vec<(&'static str, &'static str, &'static str)> {
+    vec![
+        ("", "ab|", "c"), ("", "(?:ab)", ""), ("", "a", ""), ("", "[ab]", ""), ("", "(?=a)", ""), ("(?=)", "ab|", "c"), ("(?=)", "(?:ab)x", ""), ("", "(ab)", "\\1"),
+        ("(?x)", "# c\n", "a"), ("(?x)", " a # c\n", ""), ("(?x) (?=)", "# c\n ", "a"), ("", "(?#c)", "a"), ("", "\\x41", ""), ("", "a?", ""), ("(?i)", "ab", "\\b"),
+    ]
+}
+
 fn random_tokens(bytes: &[u8]) -> String {
     let mut d = Dec::new(bytes);
     let n = 4 + d.below(12);
@@ -325,6 +333,39 @@ pub fn worker(ctx: &RunCtx, args: &[String]) {
                 if let Some(f) = run_one(&input, &mut st, &mut seen, &mut hashes, false) {
                     failure = Some((input, f));
                     break;
+                }
+            }
+        }
+        "growth" => {
+            // the same unit repeated n and 4n times: four times the pattern may cost about four times the memory
+            let mut k = 0u64;
+            'units: for (pre, unit, post) in growth_units() {
+                for n in [500usize, 4_000, 60_000] {
+                    k += 1;
+                    if k % nshards != shard || unit.len() * n * 4 > 1_500_000 {
+                        continue;
+                    }
+                    let small = format!("{}{}{}", pre, unit.repeat(n), post);
+                    let big = format!("{}{}{}", pre, unit.repeat(4 * n), post);
+                    let mut peaks = [0usize; 2];
+                    for (i, input) in [&small, &big].into_iter().enumerate() {
+                        if trace {
+                            eprintln!("TRACE {}", serde_json::to_string(input).unwrap_or_default());
+                        }
+                        let (r, usage) = alloc_count::measure(|| catch_unwind(AssertUnwindSafe(|| Regex::new(input).is_ok())));
+                        if r.is_err() {
+                            failure = Some((input.clone(), Fail::new("panic", "Ok or Err", "Regex::new panicked")));
+                            break 'units;
+                        }
+                        peaks[i] = usage.peak_over_start;
+                        st.evaluations += 1;
+                        st.class("growth:measured");
+                    }
+                    if peaks[1] > 8 * peaks[0] + (2 << 20) {
+                        failure = Some((big.clone(), Fail::new("memory-growth", format!("peak heap for the unit {:?} repeated {} times <= 8 x the peak for {} times ({} bytes) + 2 MiB", unit, 4 * n, n, peaks[0]), format!("{} bytes", peaks[1]))));
+                        break 'units;
+                    }
+                    st.nontrivial_add(hash64(&(unit, n)), 1);
                 }
             }
         }
@@ -495,7 +536,7 @@ fn run_stage(ctx: &RunCtx, o: &mut Outcome, stage: &str, param: u64, hashes: &mu
 
 pub fn run(ctx: &RunCtx) -> Outcome {
     let mut o = Outcome::default();
-    o.rule = format!("inputs: (a) every sequence of <= k tokens over a {}-token vocabulary of syntax fragments (unbalanced delimiters, multi-byte characters, huge numbers, every group opener / escape prefix), (b) proptest random longer token sequences, (c) every group opener (and pairs) nested 31..120000 deep with and without closers (among them counted repeats `(?:..){{2}}` around plain and VM-interpreted cores, whose program must stay proportional to the pattern), (d) proptest character-level mutations (delete, duplicate, swap, token insertion, splice, truncate) of pattern literals found in the repository's tests and of valid patterns printed from the harness AST. Oracle per input, in a worker process with a counting allocator and RLIMIT_AS: Regex::new / Expr::parse_tree / RegexBuilder (tiny limits) return without panic (overflow checks on), Error Display works, ParseError position <= len (also through RegexBuilder with case_insensitive(true)), peak heap <= 256 MiB + 4 MiB*len, cumulative allocation <= 4 GiB + 64 MiB*len; a worker killed by a signal is re-run with tracing and the input in flight is the counterexample. Non-trivial = the input parsed, or failed at a position > 0. Distinct = distinct input strings (hash-partitioned over workers).", VOCAB.len());
+    o.rule = format!("inputs: (a) every sequence of <= k tokens over a {}-token vocabulary of syntax fragments (unbalanced delimiters, multi-byte characters, huge numbers, every group opener / escape prefix), (b) proptest random longer token sequences, (c) every group opener (and pairs) nested 31..120000 deep with and without closers (among them counted repeats `(?:..){{2}}` around plain and VM-interpreted cores, whose program must stay proportional to the pattern), (c') one unit (alternation branch, group, literal, class, look-around, comment line in free-spacing mode, ..) repeated n and 4n times for n up to 60000: no panic / crash, and the peak heap of the longer one is at most 8 x that of the shorter + 2 MiB, (d) proptest character-level mutations (delete, duplicate, swap, token insertion, splice, truncate) of pattern literals found in the repository's tests and of valid patterns printed from the harness AST. Oracle per input, in a worker process with a counting allocator and RLIMIT_AS: Regex::new / Expr::parse_tree / RegexBuilder (tiny limits) return without panic (overflow checks on), Error Display works, ParseError position <= len (also through RegexBuilder with case_insensitive(true)), peak heap <= 256 MiB + 4 MiB*len, cumulative allocation <= 4 GiB + 64 MiB*len; a worker killed by a signal is re-run with tracing and the input in flight is the counterexample. Non-trivial = the input parsed, or failed at a position > 0. Distinct = distinct input strings (hash-partitioned over workers).", VOCAB.len());
     o.assumptions = vec!["wall-clock time is only a watchdog; time proportionality is checked through allocation volume".into()];
     o.required_classes = vec!["ok".into(), "ParseError:UnclosedOpenParen".into(), "CompileError:InvalidBackref".into()];
     let quick = ctx.quick();
@@ -504,6 +545,7 @@ pub fn run(ctx: &RunCtx) -> Outcome {
     run_stage(ctx, &mut o, "tokens", k, &mut hashes);
     o.exhaustive = Some(format!("all sequences of <= {} tokens over the {}-token vocabulary", k, VOCAB.len()));
     run_stage(ctx, &mut o, "nesting", 0, &mut hashes);
+    run_stage(ctx, &mut o, "growth", 0, &mut hashes);
     run_stage(ctx, &mut o, "random-tokens", if quick { 40_000 } else { 400_000 }, &mut hashes);
     run_stage(ctx, &mut o, "mutations", if quick { 80_000 } else { 800_000 }, &mut hashes);
     for (i, h) in hashes.iter().enumerate() {
